@@ -50,8 +50,10 @@ T.update({
   "C04": ("model_checking", "4 C04",
           "LockingDeque.tla (one label per primitive operation) is model-checked exhaustively for the repaired protocol (no lost wake-up, at most once, "
           "order/nothing lost outside the overflow regime); its behaviours are imposed step by step on the real threads; and thousands of executions of the "
-          "real ActiveObject under random, PCT and counterexample-guided schedules are validated by TLC against AO.tla.",
-          "TLC model checking of LockingDeque.tla + schedule replay into the real code + TLC trace validation (AOTrace.tla)"),
+          "real ActiveObject under random, PCT and counterexample-guided schedules are validated by TLC against AO.tla. The whole system (several objects, "
+          "fabric deliveries, timed posts, stop) is specified at queue level in System.tla, model-checked (SystemMC.tla: order, nothing dispatched more "
+          "often than queued, eventual dispatch under fairness) and recorded whole-system executions are validated against the same actions (SystemTrace.tla).",
+          "TLC model checking of LockingDeque.tla and SystemMC.tla + schedule replay into the real code + TLC trace validation (AOTrace.tla, SystemTrace.tla)"),
   "C05": ("model_checking", "4 C05",
           "TLC checks PostersFinish and Quiescence of LockingDeque.tla under weak fairness; real executions with a fair (round-robin) suffix must reach "
           "quiescence with every post returned, validated by TLC (NoProgress / PostBlocked clauses).",
@@ -95,12 +97,14 @@ T.update({
           "TLC trace validation of real multi-object executions against PubSubTrace.tla"),
   "C09": ("model_checking", "4 C09",
           "Same executions as C07; at every delivery into an active object's queue TLC checks the position of the delivered event in the queue "
-          "content observed right after the operation: front for lifo subscriptions, back for fifo.",
-          "TLC trace validation (queue position clause of PubSubTrace.tla)"),
+          "content observed right after the operation: front for lifo subscriptions, back for fifo (PubSubTrace.tla), and the same executions are "
+          "validated against System.tla, whose Put action demands the end of the queue that the delivering thread's kind names.",
+          "TLC trace validation (queue position clause of PubSubTrace.tla; Put/WrongEnd of SystemTrace.tla)"),
   "C10": ("model_checking", "4 C10",
           "TimerTrace.tla prescribes, in virtual integer time, the instant and queue end of every post of a timed source and the number of posts due "
-          "by the horizon; real post_fifo/post_lifo(period, times, deferred) sources run under the scheduler's virtual clock and every post is checked.",
-          "TLC trace validation in virtual time against TimerTrace.tla"),
+          "by the horizon; real post_fifo/post_lifo(period, times, deferred) sources run under the scheduler's virtual clock and every post is checked, "
+          "also in executions where injected delays make threads slow (never early, late by at most the injected delay); queue ends are checked against System.tla too.",
+          "TLC trace validation in virtual time against TimerTrace.tla and SystemTrace.tla"),
   "C11": ("model_checking", "4 C11",
           "Timers.tla model-checks the timer/canceller protocol (no post after the cancel returned; no deadlock; termination); real cancel_event / "
           "cancel_events calls with ids and names rebuilt from text, racing the timer threads, are validated by TimerTrace.tla (no post after the "
@@ -108,8 +112,9 @@ T.update({
           "TLC model checking of Timers.tla + TLC trace validation of real executions"),
   "C12": ("model_checking", "4 C12",
           "stop() from another thread and from a handler, racing timer threads and posters: after it returns TLC checks on the recorded execution "
-          "that the object's thread ended, nothing more is dispatched, none of its sources posts, and the other objects and the fabric keep running.",
-          "TLC model checking of Timers.tla + TLC trace validation (TimerTrace.tla)"),
+          "that the object's thread ended, nothing more is dispatched, none of its sources posts, and the other objects and the fabric keep running; "
+          "System.tla's StopRet / NoStepAfterStop (model-checked in SystemMC.tla) are validated on the same executions at queue level.",
+          "TLC model checking of Timers.tla and SystemMC.tla + TLC trace validation (TimerTrace.tla, SystemTrace.tla)"),
   "C31": ("model_checking", "4 C31",
           "With a small capacity of tracked sources, TimerTrace.tla prescribes which timed posts must be rejected and that a rejected source never "
           "posts (deferred or not) while tracked ones keep posting; validated on real executions under controlled schedules.",
